@@ -216,7 +216,7 @@ def run(chk, b, tier):
     scratch = b.scratchdir()
     d = os.path.join(scratch, "c14")
     os.makedirs(d)
-    nrepos = 2 if tier == "quick" else 6
+    nrepos = 2 if tier == "quick" else 12
     jobs = []
     jid = 0
     for ri in range(nrepos):
